@@ -405,7 +405,10 @@ def analyse(prop, progs):
 
 PROP_DIV = {'C09': ('_keygen', 'raw key', 'encoded key', 'bind(spec) vs inspect.signature.bind'), 'C10': ('_keygen', 'raw key', 'encoded key'),
             'C11': ('_keygen', 'raw key', 'encoded key'), 'C17': ('raw key', 'encoded key'), 'C18': ('_keygen',),
-            'C19': ('validate', 'bind(spec) vs inspect.signature.bind')}
+            'C19': ('validate', 'bind(spec) vs inspect.signature.bind'), 'C01': ('raw key', 'encoded key')}
+# C01 (transparency) presupposes an information-preserving key: two calls that bind different values must not share a key, or the
+# second is answered with the first one's result. Those are C10's monitors; the C01 check runs them too.
+ALSO = {'C01': 'C10'}
 
 
 def explore(prop, tier, n=None, offset=0):
@@ -421,8 +424,9 @@ def explore(prop, tier, n=None, offset=0):
         tags.update(q['tags'])
         if q['tags'].get('respell') or q['tags'].get('mutate'): nontrivial += 1
         for v in q['viol']:
-            if v['prop'] == prop:
+            if v['prop'] == ALSO.get(prop, prop):
                 ci = v.get('item', {}).get('ci')
+                v = dict(v, prop=prop)
                 viols.append(dict(v, i=0, cfg=dict(tier=tier, idx=q['idx'], seed=SEED), ops=q['prog'], src=q['src'],
                                   plan=[q['plan'][ci]] if ci is not None else q['plan']))
     samples = [q['sample'] for q in progs[:3] if q['sample']]
@@ -436,7 +440,7 @@ def replay(prop, obj):
     q = run_program(obj['cfg']['tier'], obj['cfg']['idx'], seed=obj['cfg'].get('seed', 0), prog=obj.get('program'), plan=obj.get('plan'))
     if q['err']: raise NoVerdict(q['err'])
     divs = [d for d in analyse(prop, [q]) if d['detail']['what'] in PROP_DIV.get(prop, ())]
-    return dict(violations=[dict(prop=v['prop'], sig=v['sig'], msg=v['msg'], i=0) for v in q['viol'] if v['prop'] == prop],
+    return dict(violations=[dict(prop=prop, sig=v['sig'], msg=v['msg'], i=0) for v in q['viol'] if v['prop'] == ALSO.get(prop, prop)],
                 divergence=divs[0]['detail'] if divs else None)
 
 
